@@ -562,11 +562,29 @@ fn seq_op(w: &mut World, accepted: &mut u32, refused: &mut u32, drops: &mut u32)
             }
             let victim = list[cx().a(list.len() as u32) as usize];
             let (mut base, mut size) = (w.regs[victim].base, w.regs[victim].size as u64);
-            match cx().a(6) {
+            match cx().a(10) {
                 0 => size += 1,
                 1 => size = size.saturating_sub(1),
                 2 => base = base.wrapping_add(1),
                 3 => base = base.wrapping_add(size - 1),
+                // both wrong in a correlated way: a proper part of the region that ends where the region
+                // ends, one that starts where it starts, one in the middle; the region plus its successor
+                4 if size > 1 => {
+                    let d = 1 + cx().a((size - 1).min(0x2000) as u32) as u64;
+                    base = base.wrapping_add(d);
+                    size -= d;
+                    cx().count("probe.remove_region_of_a_part_ending_at_the_region_end");
+                }
+                5 if size > 1 => size -= 1 + cx().a((size - 1).min(0x2000) as u32) as u64,
+                6 if size > 2 => {
+                    base = base.wrapping_add(1);
+                    size -= 2;
+                }
+                7 => {
+                    if let Some(&nx) = list.iter().find(|&&i| w.regs[i].base == base.wrapping_add(size)) {
+                        size += w.regs[nx].size as u64;
+                    }
+                }
                 _ => {}
             }
             let pos = list.iter().position(|&i| w.regs[i].base == base && w.regs[i].size as u64 == size);
